@@ -240,6 +240,9 @@ inductive Op where
   | swap (k1 k2 : List String)
   /-- `td[dst] = td[src]`: `dst` (new or existing) is bound to the tensor `src` is bound to -/
   | assign (dst src : List String)
+  /-- `td = pickle.loads(pickle.dumps(td))`, `td = copy.deepcopy(td)`, or the tensordict that arrives in another process
+      (`_reduce_td` is the reducer registered for all three): the history goes on with the rebuilt tensordict -/
+  | reduce
   deriving Repr
 
 def setLocked (b : Bool) (td : TD) : TD :=
@@ -266,6 +269,17 @@ def insertInSubtree (es : List Entry) (e : Entry) : List Entry :=
 def reindex : Nat → List Entry → List Entry
   | _, [] => []
   | i, e :: rest => { e with ref := Ref.slot i } :: reindex (i + 1) rest
+
+/-- the entries of a tensordict rebuilt from a snapshot: leaf `i` is the view of slot `i` -/
+def slotEntries : Nat → List (List String × LeafMeta × Slot) → List Entry
+  | _, [] => []
+  | i, (k, m, _) :: rest => ⟨k, m, .slot i⟩ :: slotEntries (i + 1) rest
+
+/-- `_rebuild_tensordict_files_consolidated.from_metadata` fills the new tensordict with the leaves of the node first
+    (`metadata["leaves"]`, in their order) and with its sub-tensordicts afterwards: the rebuilt tensordict iterates the root's
+    leaves before the nested ones, whatever the order was (the metadata do not record the interleaving) -/
+def leavesFirst (es : List Entry) : List Entry :=
+  es.filter (fun e => decide (e.key.length ≤ 1)) ++ es.filter (fun e => !decide (e.key.length ≤ 1))
 
 def step (s : State) : Op → State
   | .consolidate file =>
@@ -305,6 +319,14 @@ def step (s : State) : Op → State
       let es := (insertInSubtree s.td.entries renamed).filter (·.key != old)
       { s with td := { s.td with entries := es } }
 
+  | .reduce =>
+    -- `_reduce_td`: a snapshot that is current is sent as (metadata, storage) and rebuilt by
+    -- `_rebuild_tensordict_files_consolidated` (the result is consolidated again, on a storage of its own);
+    -- otherwise `__getstate__` without the obsolete storage: every leaf is sent for itself
+    let own : State := ⟨⟨s.td.nodes, s.td.entries.map fun e => { e with ref := .own (e.ref.bytes s.snap) }⟩, none⟩
+    match s.snap with
+    | some sn => if describes sn s.td then ⟨⟨sn.nodes, leavesFirst (slotEntries 0 sn.leaves)⟩, some sn⟩ else own
+    | none => own
   | .swap k1 k2 =>
     match s.td.entries.find? (·.key == k1), s.td.entries.find? (·.key == k2) with
     | some e1, some e2 =>
